@@ -4,10 +4,13 @@ from pyvc import spec as SP
 from pyvc.sym import Sym
 
 META = {
-    "explanation": "intdiv proved for all integers; integer scaling, negation, addition and subtraction of equilibria proved (net stoichiometry, positivity, netted form, side swap, constant = product of powers) for every coefficient and constant at fixed key layouts that include species on opposite sides and shared species; cancel and as_reactions likewise; the induction over operation histories is the Lean lemma pair nu_eq_combination / const_eq_product_of_powers (lemmas/C11_history.lean); two- and three-step expressions are also proved directly on the code",
-    "trusted_base": ["pow(K, n) axioms (5.3)", "Lean 4 kernel + Mathlib for lemmas/C11_history.lean (re-checked on every run, C11.lemma.*): for any expression over any number of operands, net stoichiometry = sum_i c_i nu_i and constant = prod_i K_i^c_i, given that one scaling/addition/subtraction acts as proved in C11.scale/add/sub; the correspondence between `EqExpr.nu/const` and those obligations is by inspection"],
-    "not_decided": ["Equilibrium.eliminate: the common multiple comes from sympy.primefactors (bounded stand-in, exhaustive on [-60,60]^2)"],
-    "assumptions": ["key layouts fixed per harness (shape-bounded)", "scaling by a non-zero integer (scaling by 0 lists zero coefficients: outside 'every listed coefficient positive')"],
+    "explanation": "intdiv proved for all integers; integer scaling, negation, addition and subtraction of equilibria proved (net stoichiometry, positivity, netted form, side swap, constant = product of powers) for every coefficient and constant at fixed key layouts that include species on opposite sides, shared species and operands that have a species on both sides themselves; cancel (also fed back to the operators) and as_reactions likewise; the induction over operation histories is the Lean lemma pair nu_eq_combination / const_eq_product_of_powers (lemmas/C11_history.lean); two- and three-step expressions are also proved directly on the code, and expression trees with exact constants (Fraction, sympy rationals and symbols) are replayed on the real objects with exact comparison at every node. The listing clause (every coefficient positive, netted, cancelled species removed) is NOT carried by the lemma, which is about net stoichiometry and constant only: it is proved for one addition/subtraction of arbitrary operands of the layouts, i.e. for the OUTERMOST add/sub of any history, and positivity for one scaling",
+    "trusted_base": ["pow(K, n) axioms (5.3)", "Lean 4 kernel + Mathlib for lemmas/C11_history.lean (re-checked on every run, C11.lemma.*): for any expression over any number of operands, net stoichiometry = sum_i c_i nu_i and constant = prod_i K_i^c_i, given that one scaling/addition/subtraction acts as proved in C11.scale/add/sub; the correspondence between `EqExpr.nu/const` and those obligations is by inspection. The Lean operations are total, the code's are not (see assumptions): the theorem transfers to the histories in which no sub-expression has an empty net stoichiometry"],
+    "not_decided": ["Equilibrium.eliminate: the common multiple comes from sympy.primefactors (bounded stand-in, exhaustive on [-60,60]^2)",
+                    "constants given as Python int: a negative factor turns them into float (49 ** -1), so -(-e) has the constant 49.00000000000001; exactness is stated for Fraction and sympy constants only (histories.exact_constants)"],
+    "assumptions": ["key layouts fixed per harness (shape-bounded)",
+                    "histories without a sub-expression whose net stoichiometry is empty: 0*e, e - e, e + reverse(e), also as an intermediate as in (e1 - e1) + e2, are refused by the pinned tree (ValueError from the result's constructor) where the statement reads as the empty equilibrium with constant 1; scale.* assume n != 0, and degenerate_and_inactive.* state that such an expression is refused or exact, never something else",
+                    "operands without inactive parts (the quantifier); for operands that have them only the active part is stated (degenerate_and_inactive)"],
 }
 CH = "chempy.chemistry"
 
@@ -119,6 +122,9 @@ def _add(name, l1, l2):
 
 for _n, _l in LAY.items():
     _add(_n, _l[0], _l[1])
+# operands that are NOT in netted form themselves (A on both sides of each: what a scaled leaf looks like when it is the operand of the next addition):
+# four contributions to the key A, both signs and 0 of its net reachable; B keeps every sum and difference non-empty
+_add("both_sides", (["A", "B"], ["A", "C"]), (["A", "C"], ["A", "D"]))
 
 
 @harness("C11", "add.none_params", functions=[CH + ":Equilibrium.__add__"], kind="data")
@@ -160,14 +166,16 @@ def _(v):
     v.prove("forward_param", v.eq(fw.param, kf))
     v.prove("sides", fw.reac == e.reac and fw.prod == e.prod and bw.reac == e.prod and bw.prod == e.reac)
     v.prove("inactive_swapped", fw.inact_reac == e.inact_reac and fw.inact_prod == e.inact_prod and bw.inact_reac == e.inact_prod and bw.inact_prod == e.inact_reac)
-    v.prove("types", type(fw) is Reaction and type(bw) is Reaction)
+    # plain reactions (a subclass of Reaction would do), not equilibria again
+    v.prove("types", isinstance(fw, Reaction) and isinstance(bw, Reaction) and not isinstance(fw, Equilibrium) and not isinstance(bw, Equilibrium))
     fw2, bw2 = v.call(e.as_reactions, kb=kb)
     v.prove("kf_from_kb", v.eq(fw2.param, kb * K))
     v.prove("backward_param", v.eq(bw2.param, kb))
     out = v.run(e.as_reactions, kf=kf, kb=kb)
-    v.prove("both_given_raises", out.raised(ValueError))
+    # refused: with which exception type is not part of the statement (the pinned tree: ValueError)
+    v.prove("both_given_raises", out.raised())
     out = v.run(e.as_reactions)
-    v.prove("none_given_raises", out.raised(ValueError))
+    v.prove("none_given_raises", out.raised())
 
 
 @harness("C11", "lemma", functions=["lemmas/C11_history.lean: EqExpr.nu_eq_combination, EqExpr.const_eq_product_of_powers"], kind="lemma", samples=0)
@@ -207,15 +215,106 @@ def _(v):
             v.prove(label + ".constant", v.eq(r.param, K1 ** x * K2 ** y, rel=1e-9))
 
 
-@harness("C11", "eliminate.pairs", functions=[CH + ":Equilibrium.eliminate"], kind="data")
+@harness("C11", "histories.exact_constants", functions=[CH + ":Equilibrium.__rmul__", CH + ":Equilibrium.__mul__", CH + ":Equilibrium.__neg__", CH + ":Equilibrium.__add__", CH + ":Equilibrium.__sub__"], kind="data")
+def _(v):
+    """the quantifier's 'exact rational or symbolic constants' on the real objects: expression trees (depth <= 3, fixed seed) over three operands, one of
+    them with a species on both sides, with Fraction, sympy.Rational and positive sympy.Symbol constants.  At EVERY node of the tree: net stoichiometry
+    = the integer combination (coefficients accumulated here with plain integer arithmetic), all listed coefficients positive ints, sums and
+    differences netted with cancelled species removed, constant = product of powers compared EXACTLY (== for rationals, zero difference after
+    sympy.simplify for symbols; no tolerance).  A tree one of whose sub-expressions has an empty net stoichiometry may be refused instead (META
+    assumptions); any other tree must not be"""
+    import numbers
+    import random
+    from fractions import Fraction as Fr
+    import sympy
+    from chempy.chemistry import Equilibrium
+    SPEC = [({"A": 2, "B": 1}, {"A": 1, "C": 1}), ({"C": 1}, {"A": 2, "D": 1}), ({"B": 1, "D": 2}, {"C": 3})]
+    NU = [{k: p.get(k, 0) - r.get(k, 0) for k in "ABCD"} for r, p in SPEC]
+    syms = sympy.symbols("K1 K2 K3", positive=True)
+    FAM = {"fraction": ([Fr(3, 2), Fr(5, 7), Fr(11, 4)], lambda x, w: isinstance(x, numbers.Rational) and x == w),        # exact: a float is not a Rational
+           "sympy_rational": ([sympy.Rational(3, 2), sympy.Rational(5, 7), sympy.Rational(11, 4)], lambda x, w: x == w and sympy.sympify(x).is_Rational),
+           "sympy_symbol": (list(syms), lambda x, w: sympy.simplify(x - w) == 0)}
+    rnd = random.Random(1111)
+
+    def gen(depth):
+        t = rnd.random()
+        if depth == 0 or t < 0.2:
+            return ("leaf", rnd.randrange(3))
+        if t < 0.45:
+            return ("scale", rnd.choice((-3, -2, -1, -1, 2, 3, 1, 0 if rnd.random() < 0.2 else 2)), gen(depth - 1), rnd.random() < 0.5)
+        if t < 0.55:
+            return ("neg", gen(depth - 1))
+        return ("add" if t < 0.8 else "sub", gen(depth - 1), gen(depth - 1))
+
+    def coef(t):
+        if t[0] == "leaf":
+            return [int(i == t[1]) for i in range(3)]
+        if t[0] == "scale":
+            return [t[1] * c for c in coef(t[2])]
+        if t[0] == "neg":
+            return [-c for c in coef(t[1])]
+        a, b = coef(t[1]), coef(t[2])
+        return [x + y if t[0] == "add" else x - y for x, y in zip(a, b)]
+
+    def net(c):
+        return {k: sum(ci * nu[k] for ci, nu in zip(c, NU)) for k in "ABCD"}
+
+    def degenerate(t):
+        return (not any(net(coef(t)).values())) or any(degenerate(x) for x in t[1:] if isinstance(x, tuple))
+
+    trees = [gen(3) for _ in range(160)]
+    n_deg = sum(map(degenerate, trees))
+    for fam, (Ks, same) in FAM.items():
+        leaves = [Equilibrium(dict(r), dict(p), K) for (r, p), K in zip(SPEC, Ks)]
+        bad = []
+
+        def ev(t):
+            """the real object for the tree t, checked at every node; raises what the code under test raises"""
+            if t[0] == "leaf":
+                return leaves[t[1]]
+            if t[0] == "scale":
+                x = ev(t[2])
+                r = t[1] * x if t[3] else x * t[1]
+            elif t[0] == "neg":
+                r = -ev(t[1])
+            else:
+                x, y = ev(t[1]), ev(t[2])
+                r = x + y if t[0] == "add" else x - y
+            c = coef(t)
+            want = net(c)
+            wK = 1
+            for K, ci in zip(Ks, c):
+                wK = wK * K ** ci
+            coefs = list(r.reac.values()) + list(r.prod.values())
+            ok = isinstance(r, Equilibrium) and all(r.prod.get(k, 0) - r.reac.get(k, 0) == want[k] for k in "ABCD") and set(r.reac) | set(r.prod) <= set("ABCD")
+            ok = ok and all(isinstance(x, int) and x > 0 for x in coefs) and not r.inact_reac and not r.inact_prod
+            if t[0] in ("add", "sub"):
+                ok = ok and dict(r.reac) == {k: -n for k, n in want.items() if n < 0} and dict(r.prod) == {k: n for k, n in want.items() if n > 0}
+            if not (ok and same(r.param, wK)):
+                bad.append((t, dict(r.reac), dict(r.prod), r.param, wK))
+            return r
+
+        for t in (trees if fam != "sympy_symbol" else trees[:80]):
+            try:
+                ev(t)
+            except Exception as ex:
+                if not degenerate(t):
+                    bad.append((t, repr(ex)))
+        v.prove(fam, not bad and 5 <= n_deg <= 80, detail="%d bad (%d of %d trees pass through an empty net): %s" % (len(bad), n_deg, len(trees), bad[:3]))
+
+
+@harness("C11", "eliminate.pairs", functions=[CH + ":Equilibrium.eliminate", CH + ":Equilibrium.__rmul__", CH + ":Equilibrium.__add__"], kind="data")
 def _(v):
     """'for two equilibria that both involve a species, the elimination helper returns non-zero integer multipliers whose combination contains
     none of that species': all pairs of net coefficients in [-12, 12] with the species on one or on both sides (the larger grid is the bounded
-    stand-in); the combination is formed with the real operators"""
+    stand-in).  Integer means usable as one (operator.index; 2.0 is not).  For |v| <= 8 (beyond, the helper's common multiple makes the exact
+    constant too long) the combination is formed with the real operators FROM THE MULTIPLIERS AS RETURNED (sympy integers on the pinned tree:
+    the path that the documented use m0*e0 + m1*e1 takes) and compared with the netted combination and the product of powers written out here"""
+    import operator
     from fractions import Fraction as Fr
     from chempy.chemistry import Equilibrium
     bad = []
-    n = 0
+    n = formed = 0
     for v0 in range(-12, 13):
         for v1 in range(-12, 13):
             if v0 == 0 or v1 == 0:
@@ -227,17 +326,58 @@ def _(v):
                 e0, e1 = mk(v0, "P", Fr(3, 2)), mk(v1, "Q", Fr(5, 7))
                 n += 1
                 try:
+                    # the operands really have the net coefficients that the relation below is stated with (read off the sides, not through net_stoich)
+                    ok = e0.prod.get("X", 0) - e0.reac.get("X", 0) == v0 and e1.prod.get("X", 0) - e1.reac.get("X", 0) == v1
                     m0, m1 = Equilibrium.eliminate([e0, e1], "X")
-                    ok = int(m0) == m0 and int(m1) == m1 and m0 != 0 and m1 != 0 and m0 * v0 + m1 * v1 == 0
-                    if ok and abs(v0) <= 3 and abs(v1) <= 3:
-                        comb = int(m0) * e0 + int(m1) * e1
-                        ok = "X" not in comb.reac and "X" not in comb.prod and comb.param == Fr(3, 2) ** int(m0) * Fr(5, 7) ** int(m1)
+                    i0, i1 = operator.index(m0), operator.index(m1)
+                    ok = ok and i0 == m0 and i1 == m1 and i0 != 0 and i1 != 0 and i0 * v0 + i1 * v1 == 0
+                    if ok and abs(v0) <= 8 and abs(v1) <= 8:
+                        formed += 1
+                        comb = m0 * e0 + m1 * e1
+                        net = {"P": -i0, "Pp": i0, "Q": -i1, "Qp": i1}        # X: i0*v0 + i1*v1 = 0, not listed
+                        ok = (dict(comb.reac) == {k: -c for k, c in net.items() if c < 0} and dict(comb.prod) == {k: c for k, c in net.items() if c > 0}
+                              and all(isinstance(c, int) for c in list(comb.reac.values()) + list(comb.prod.values()))
+                              and comb.param == Fr(3, 2) ** i0 * Fr(5, 7) ** i1)
                 except Exception as ex:
                     ok = False
                     m0 = m1 = repr(ex)
                 if not ok:
                     bad.append((v0, v1, both, m0, m1))
-    v.prove("multipliers_eliminate_the_species", not bad and n == 2 * 24 * 24, detail="%d bad of %d: %s" % (len(bad), n, bad[:5]))
+    v.prove("multipliers_eliminate_the_species", not bad and n == 2 * 24 * 24 and formed == 2 * 16 * 16, detail="%d bad of %d (%d formed): %s" % (len(bad), n, formed, bad[:5]))
+
+
+@harness("C11", "scale.integer_kinds", functions=[CH + ":Equilibrium.__rmul__", CH + ":Equilibrium.__mul__"], kind="data")
+def _(v):
+    """'integer scaling (including negative, which reverses the reaction)' for integers that are not the built-in int: the kind that the elimination
+    helper returns (sympy.Integer) must scale exactly like the int of the same value -- sides, coefficients (plain ints: they are counted, printed and
+    put into integer arrays further on), constant K**n exactly; other integer kinds (numpy, bool) do the same or are refused, never something else"""
+    from fractions import Fraction as Fr
+    import numpy
+    import sympy
+    from chempy.chemistry import Equilibrium
+    K = Fr(3, 2)
+    e = Equilibrium({"A": 1, "B": 2}, {"C": 3}, K)
+    bad = []
+    for s, n, may_refuse in ((sympy.Integer(-2), -2, False), (sympy.Integer(3), 3, False), (sympy.Integer(1), 1, False), (sympy.Integer(-1), -1, False),
+                             (numpy.int64(-2), -2, True), (numpy.int32(3), 3, True), (numpy.uint8(2), 2, True), (True, 1, True)):
+        a = abs(n)
+        wr, wp = ({"A": a, "B": 2 * a}, {"C": 3 * a}) if n > 0 else ({"C": 3 * a}, {"A": a, "B": 2 * a})
+        for label, f in (("s*e", lambda: s * e), ("e*s", lambda: e * s)):
+            try:
+                r = f()
+            except Exception as ex:
+                if not may_refuse:
+                    bad.append((label, repr(s), repr(ex)))
+                continue
+            try:
+                ok = (isinstance(r, Equilibrium) and dict(r.reac) == wr and dict(r.prod) == wp and r.param == K ** n
+                      and all(isinstance(c, int) for c in list(r.reac.values()) + list(r.prod.values())))
+            except Exception as ex:
+                ok = False
+                r = repr(ex)
+            if not ok:
+                bad.append((label, repr(s), str(r), [type(c).__name__ for c in list(getattr(r, "reac", {}).values())]))
+    v.prove("same_as_builtin_int", not bad, detail=repr(bad[:4]))
 
 
 @harness("C11", "cancel.proper_multiple", functions=[CH + ":Equilibrium.cancel", "chempy._util:intdiv"], kind="shape-bounded", samples=40)
@@ -259,11 +399,66 @@ def _(v):
     v.prove("reversed_partner_is_added", v.call(e1.cancel, e2r) == m)
 
 
+def _cancel_fed_back(a2, c2):
+    @harness("C11", "cancel.fed_back.%d_%d" % (a2, c2), functions=[CH + ":Equilibrium.cancel", "chempy._util:intdiv", CH + ":Equilibrium.__rmul__", CH + ":Equilibrium.__add__"], kind="shape-bounded", samples=30)
+    def _(v):
+        """the multiplier of cancel.proper_multiple fed back to the real operators (what it is for): in e1 + c*e2 no species of e2 has changed sides and
+        none has grown; e1 + (c-1)*e2, one more subtraction, has one on the other side.  (The partner's coefficients are fixed numbers here: the products
+        stay linear)"""
+        from chempy.chemistry import Equilibrium
+        a1, b1, c1 = v.int("a1", lo=1, hi=60), v.int("b1", lo=1, hi=9), v.int("c1", lo=1, hi=60)
+        e1 = Equilibrium({"A": a1, "B": b1}, {"C": c1}, 2.0, checks=())
+        e2 = Equilibrium({"A": a2}, {"C": c2}, 3.0, checks=())
+        c = v.call(e1.cancel, e2)
+        if v.symbolic:
+            v.assume(SP.neg(c == 0))        # 0*e2 is refused (empty net stoichiometry, see degenerate_and_inactive)
+        elif c == 0:
+            return
+        r = v.call(e1.__add__, v.call(e2.__rmul__, c))
+        v.prove("no_species_changes_sides", SP.conj(["A" not in r.prod, "C" not in r.reac, r.reac.get("A", 0) == a1 + c * a2, r.prod.get("C", 0) == c1 + c * c2, r.reac.get("B", 0) == b1,
+                                                     r.reac.get("A", 0) <= a1, r.prod.get("C", 0) <= c1]))
+        v.prove("netted_and_positive", (not (set(r.reac) & set(r.prod))) and SP.conj([x > 0 for x in list(r.reac.values()) + list(r.prod.values())]))
+        r1 = v.call(e1.__add__, v.call(e2.__rmul__, c - 1))
+        v.prove("one_more_changes_sides", SP.disj(["A" in r1.prod, "C" in r1.reac]))
+    return _
+
+
+for _a2, _c2 in ((1, 1), (2, 3), (7, 2)):
+    _cancel_fed_back(_a2, _c2)
+
+
+@harness("C11", "cancel.opposite_sign_quotients", functions=[CH + ":Equilibrium.cancel", "chempy._util:intdiv", CH + ":Equilibrium.__rmul__", CH + ":Equilibrium.__add__"], kind="shape-bounded", samples=40)
+def _(v):
+    """cancel where the second equilibrium can be added (until S is used up) AND subtracted (until T is used up): e1: U -> s S + t T, e2: s2 S -> t2 T.
+    Stated by what the multiplier means, not by how it is selected (either direction is a multiplier 'of how many times rxn can be added/subtracted'):
+    in e1 + c*e2, formed by the real operators, no species of e2 has changed sides, and one more step in the same direction would make one do so"""
+    from chempy.chemistry import Equilibrium
+    s, t = v.int("s", lo=1, hi=40), v.int("t", lo=1, hi=40)
+    s2, t2 = v.int("s2", lo=1, hi=5), v.int("t2", lo=1, hi=5)
+    e1 = Equilibrium({"U": 1}, {"S": s, "T": t}, 2.0, checks=())
+    e2 = Equilibrium({"S": s2}, {"T": t2}, 3.0, checks=())
+    c = v.call(e1.cancel, e2)
+    nS, nT = s - c * s2, t + c * t2          # net of S and T in e1 + c*e2 (both products of e1)
+    v.prove("no_species_changes_sides", SP.conj([nS >= 0, nT >= 0]))
+    v.prove("one_more_step_would", SP.conj([SP.implies(c > 0, s - (c + 1) * s2 < 0), SP.implies(c < 0, t + (c - 1) * t2 < 0), SP.implies(c == 0, SP.disj([s - s2 < 0, t - t2 < 0]))]))
+    if v.symbolic:
+        v.assume(SP.neg(c == 0))
+    elif c == 0:
+        return
+    r = v.call(e1.__add__, v.call(e2.__rmul__, c))
+    v.prove("fed_back", SP.conj(["S" not in r.reac, "T" not in r.reac, r.prod.get("S", 0) == nS, r.prod.get("T", 0) == nT, r.reac.get("U", 0) == 1, "U" not in r.prod]))
+    v.prove("fed_back.netted_and_positive", (not (set(r.reac) & set(r.prod))) and SP.conj([x > 0 for x in list(r.reac.values()) + list(r.prod.values())]))
+
+
 @harness("C11", "degenerate_and_inactive", functions=[CH + ":Equilibrium.__rmul__", CH + ":Equilibrium.__mul__", CH + ":Equilibrium.__neg__", CH + ":Equilibrium.__add__", CH + ":Equilibrium.__sub__"], kind="data")
 def _(v):
-    """corners of the algebra on the real objects: a combination whose net stoichiometry is empty (0*e, e - e, e + reverse(e)) is refused with
-    ValueError, never returned as an equilibrium with some left-over species or a constant other than 1; kinetically inactive participants are
-    scaled with the reaction and change sides with it"""
+    """corners of the algebra on the real objects.  (1) A combination whose net stoichiometry is empty (0*e, e - e, e + reverse(e)): by the statement
+    it is the empty equilibrium with constant K**0 = 1; the pinned tree refuses to construct it (ValueError from the constructor's check_any_effect, see
+    META assumptions).  Either is accepted -- what is rejected is an equilibrium with some left-over species or a constant other than 1.  The same for an
+    expression that passes through an empty intermediate, (e1 - e1) + e2: refused, or exactly e2.  (2) Operands with kinetically inactive participants are
+    outside the quantifier; stated is only that they do not disturb the algebra of the active part (right sides, coefficients and constant, or a refusal),
+    that an inactive participant never becomes an active one, and that after a reversal it is not listed on the side it was on before"""
+    from fractions import Fraction as Fr
     from chempy.chemistry import Equilibrium
     e = Equilibrium({"A": 1, "B": 2}, {"C": 3}, 10.0, inact_reac={"S": 1})
     rev = Equilibrium({"C": 3}, {"A": 1, "B": 2}, 0.1)
@@ -271,12 +466,50 @@ def _(v):
     for label, f in (("0*e", lambda: 0 * e), ("e*0", lambda: e * 0), ("e-e", lambda: e - e), ("e+rev", lambda: e + rev)):
         try:
             r = f()
-            outcomes.append((label, dict(r.reac), dict(r.prod), r.param))
-        except ValueError:
-            pass
+        except Exception:
+            continue        # refused (the pinned tree: ValueError "The net stoichiometry change of all species are zero.")
+        try:
+            if not (isinstance(r, Equilibrium) and dict(r.reac) == {} and dict(r.prod) == {} and abs(r.param - 1) <= 1e-12):
+                outcomes.append((label, dict(r.reac), dict(r.prod), r.param))
         except Exception as ex:
-            outcomes.append((label, repr(ex)))
+            outcomes.append((label, repr(r), repr(ex)))
+    # name kept from the time when only the refusal was accepted (baseline): now 'refused, or the empty equilibrium with constant 1'
     v.prove("empty_net_stoichiometry_refused", not outcomes, detail=repr(outcomes))
-    two, neg = 2 * e, -e
-    v.prove("inactive_parts_scaled_and_moved_with_the_reaction", dict(two.inact_reac) == {"S": 2} and not two.inact_prod and dict(neg.inact_prod) == {"S": 1} and not neg.inact_reac
-            and dict((-3 * e).inact_prod) == {"S": 3}, detail=repr((two.inact_reac, neg.inact_prod)))
+    e1, e2 = Equilibrium({"A": 1}, {"B": 1}, Fr(2)), Equilibrium({"B": 1}, {"C": 1}, Fr(3))
+    outcomes = []
+    for label, f, (wr, wp, wK) in (("(e1-e1)+e2", lambda: (e1 - e1) + e2, ({"B": 1}, {"C": 1}, Fr(3))),
+                                   ("(e1+(-e1))+2*e2", lambda: (e1 + (-e1)) + 2 * e2, ({"B": 2}, {"C": 2}, Fr(9))),
+                                   ("e2-0*e1", lambda: e2 - 0 * e1, ({"B": 1}, {"C": 1}, Fr(3))),
+                                   ("(e1+e2)-(e1+e2)+e1", lambda: ((e1 + e2) - (e1 + e2)) + e1, ({"A": 1}, {"B": 1}, Fr(2)))):
+        try:
+            r = f()
+        except Exception:
+            continue
+        try:
+            if not (dict(r.reac) == wr and dict(r.prod) == wp and r.param == wK):
+                outcomes.append((label, dict(r.reac), dict(r.prod), r.param))
+        except Exception as ex:
+            outcomes.append((label, repr(r), repr(ex)))
+    v.prove("empty_intermediate_refused_or_exact", not outcomes, detail=repr(outcomes))
+    bad = []
+    for n in (2, -1, -3, 1):
+        for label, f in (("n*e", lambda: n * e), ("e*n", lambda: e * n)) + ((("-e", lambda: -e),) if n == -1 else ()):
+            try:
+                r = f()
+            except Exception:
+                continue    # refusing operands with inactive parts would be consistent with the quantifier
+            try:
+                a = abs(n)
+                wr, wp = ({"A": a, "B": 2 * a}, {"C": 3 * a}) if n > 0 else ({"C": 3 * a}, {"A": a, "B": 2 * a})
+                ok = dict(r.reac) == wr and dict(r.prod) == wp and abs(r.param - 10.0 ** n) <= 1e-9 * 10.0 ** n
+                ir, ip = dict(r.inact_reac), dict(r.inact_prod)
+                # the spectator of the forward direction is not one of the direction that no longer has it; nothing else appears; if listed, a positive count
+                ok = ok and set(ir) <= ({"S"} if n > 0 else set()) and set(ip) <= ({"S"} if n < 0 else set())
+                ok = ok and all(isinstance(c, int) and 1 <= c <= a for c in list(ir.values()) + list(ip.values()))
+                if not ok:
+                    bad.append((label, n, dict(r.reac), dict(r.prod), r.param, ir, ip))
+            except Exception as ex:
+                bad.append((label, n, repr(ex)))
+    # name kept (baseline); the condition no longer fixes that the inactive count is multiplied by |n| (outside the property: unscaled or dropped,
+    # as __add__ does, would preserve it too), it still rejects a wrong active part and inactive participants on the wrong side
+    v.prove("inactive_parts_scaled_and_moved_with_the_reaction", not bad, detail=repr(bad[:4]))
